@@ -126,6 +126,26 @@ class Mon(object):
                     st.violation("C04:%s:%s:%s" % (kind, "panic" if t[0] == "P" else "wrong", fam), line,
                                  "got %s expected %s" % (panic_text(t) if t[0] == "P" else t, exp))
             st.cover(S.name + ">" + D.name, "fx:" + kind, (opclass(S, a),), a != 0, line)
+        elif op == "fxf":
+            # fixed -> float through From (documented lossless) and LossyFrom
+            from floats import encode_float, decode_float
+            from fractions import Fraction
+            S = lay(toks[2])
+            w = int(toks[3])
+            a = int(toks[4], 16)
+            A = S.val(a)
+            exp = encode_float(w, A, S.f)
+            e = "V:%x" % exp
+            for name, t in (("from", toks[6]), ("lossy_from", toks[7])):
+                st.checks += 1
+                if t != e:
+                    st.violation("C04:float_%s:%s:%s->f%d" % (name, "panic" if t[0] == "P" else "wrong", S.family(), w), line,
+                                 "got %s expected %s" % (panic_text(t) if t[0] == "P" else t, e))
+            k, v = decode_float(w, exp)
+            if k != "fin" or v != Fraction(A, 1 << S.f):
+                st.violation("C04:float_from:not-lossless:%s->f%d" % (S.family(), w), line,
+                             "From<%s> for f%d exists but %d/2^%d is not exactly representable" % (S.name, w, A, S.f))
+            st.cover(S.name + ">f%d" % w, "fxf", (opclass(S, a),), a != 0, line)
         else:
             return
 
